@@ -207,7 +207,7 @@ def gen_leaf(r: Rng):
             # two annotations whose Python hashes are EQUAL although they are different annotations, given together
             v = r.choice([1, 2, 3])
             pair = r.choice([[["ConstHashAnn", v], ["ConstHashAnn", v % 3 + 1]], [["ContentAnn", v], ["TwinHashAnn", v]],
-                             [["ContentAnn", 0], ["ContentAnn", False]]])
+                             [["SI", 1, -1, 5], ["SI", 1, -2, 5]], [["ContentAnn", 7], ["ContentAnn", 7 + M61]]])
             return ["kann", r.choice([0, 5]), 8, pair if r.chance(50) else pair[::-1]]
         return ["kann", r.choice([0, 5]), 8, [gen_ann(r) for _ in range(r.range(1, 2))]]
     if k < 76:
@@ -444,6 +444,18 @@ def execute(rec):
                 if pristine[key] is not False and d != pristine[key]:
                     raise Broken("history-dependent-structure", {"op_index": i, "spec": op["spec"], "built": d[:400],
                                                                  "alone": pristine[key][:400]})
+                if op["spec"][0] == "kann":
+                    # the constructor's own contract: a constant built WITH annotations carries every one of them (equal
+                    # annotations may be merged - equal for the annotations' __eq__, not merely for their hash)
+                    given = [make_ann(x, claripy) for x in op["spec"][3]]
+                    distinct = []
+                    for g in given:
+                        if not any(g == h for h in distinct):
+                            distinct.append(g)
+                    missing = [x for x, g in zip(op["spec"][3], given) if not any(g == h for h in a.annotations)]
+                    if missing or len(a.annotations) != len(distinct):
+                        raise Broken("constructor-dropped-annotation", {"op_index": i, "spec": op["spec"], "missing": missing,
+                                                                        "have": len(a.annotations), "want": len(distinct)})
                 slots[op["slot"]] = a
                 specs[op["slot"]] = op["spec"]
                 ans.append(hashlib.sha256(d.encode()).hexdigest()[:8])
